@@ -91,12 +91,20 @@ def copyFile (t : Tree) (o n : Path) (mkdir : Bool) : Except Err Tree := do
     | .error _ => .ok t
   writeFile t n data
 
-/-- `move(old, new)`: remove the destination (a missing one is fine), mkdir the parent, rename; fall back to
-    copy + remove when the rename fails. -/
-def moveFile (t : Tree) (o n : Path) : Except Err Tree := do
-  let t ← match remove t n with
+/-- `move(old, new)`: clear the destination (a missing one is fine; since the repair of finding F8 (1)/(2) a
+    DIRECTORY standing there is removed with everything in it — `Lstat`, `IsDir`, `RemoveAll` — anything else with
+    `Remove`), mkdir the parent, rename; fall back to copy + remove when the rename fails.  `clearDest` is that
+    first step. -/
+def clearDest (t : Tree) (n : Path) : Except Err Tree :=
+  match lstat t n with
+  | .ok .dir => removeAll t n
+  | _ =>
+    match remove t n with
     | .ok t' => .ok t'
     | .error e => if e == .enoent then .ok t else .error e
+
+def moveFile (t : Tree) (o n : Path) : Except Err Tree := do
+  let t ← clearDest t n
   let t ← mkdirs t n.dropLast
   match rename t o n with
   | .ok t' => .ok t'
@@ -132,10 +140,12 @@ def nextFree (used : List Path) (p : Path) : Nat → Nat → Nat
   | 0, seed => seed
   | fuel + 1, seed => if used.contains (seedName p seed) then nextFree used p fuel (seed + 1) else seed
 
-/-- first pass: give clash-prone outputs (an output that is itself some group's source) a temporary name,
+/-- first pass: give clash-prone outputs (an output that is itself some group's source, or — since the repair of
+    finding F8 (1)/(2) — a DIRECTORY of the old build: `oldDirs[transpo.OutputPath]`) a temporary name,
     numbered in visiting order, skipping the numbers whose name is in use (`used`: the paths of both builds);
     returns the rewritten groups and the cleanup renames -/
-def safePass (groups : List (Path × List Transpo)) (sources : List Path) (used : List Path) :
+def safePass (groups : List (Path × List Transpo)) (sources : List Path) (used : List Path)
+    (oldDirs : List Path := []) :
     List (Path × List Transpo) × List Transpo := Id.run do
   let mut seed := 0
   let mut out : Array (Path × List Transpo) := #[]
@@ -145,7 +155,7 @@ def safePass (groups : List (Path × List Transpo)) (sources : List Path) (used 
     for tr in g do
       if tr.targetPath == tr.outputPath then
         g' := g'.push tr
-      else if sources.contains tr.outputPath then
+      else if sources.contains tr.outputPath || oldDirs.contains tr.outputPath then
         -- renameSeed++; then skip the numbers whose name is a path of either build
         seed := nextFree used tr.outputPath (used.length + 1) (seed + 1)
         let safe := seedName tr.outputPath seed
@@ -183,7 +193,7 @@ def applyTranspositions (old new : Build) (w : Work) (order₁ order₂ : List P
     | some (np, _), some (op, _) => some { targetPath := op, outputPath := np }
     | _, _ => none
   let sources := (ts.map (·.targetPath)).eraseDups
-  let (groups₁, cleanup) := safePass (groupsOf ts order₁) sources (pathsInUse old new)
+  let (groups₁, cleanup) := safePass (groupsOf ts order₁) sources (pathsInUse old new) old.dirs
   -- the second loop visits the same (rewritten) groups in its own order
   let groups₂ := order₂.filterMap fun p => groups₁.find? (·.1 == p)
   let overlayPaths := w.overlayFiles.filterMap fun i => (new.files[i]?).map (·.1)
@@ -196,9 +206,7 @@ def applyMoves (new : Build) (w : Work) (t : Tree) : Except Err Tree :=
     match new.files[i]? with
     | none => .error .einval
     | some (p, data) => do
-      let t ← match remove t p with
-        | .ok t' => .ok t'
-        | .error e => if e == .enoent then .ok t else .error e
+      let t ← clearDest t p
       let t ← mkdirs t p.dropLast
       writeFile t p data) t
 
